@@ -31,6 +31,12 @@ OBLIGATIONS = [
      "statement": "a connection stays cached only if reuse is configured, no close signal, no surplus, not close-delimited, async switch ok"},
     {"id": "C17_R4b2", "theorem": "Iora.C17.R4_surplus_or_close_delimited_never_kept", "kind": "proved",
      "statement": "a kept connection's response was completed by frameResponse without surplus (never by peer close)"},
+    {"id": "C17_R4g", "theorem": "Iora.C17.R4_close_signal_spec", "kind": "proved",
+     "statement": "responseRequestsClose (the C++ index loop) = RFC 7230 reading for every value/version: comma-split, OWS-trimmed, ASCII-case-folded token `close`, else `keep-alive`, else HTTP/1.0 default"},
+    {"id": "C17_R4g0", "theorem": "Iora.C17.R4_close_signal_absent", "kind": "proved",
+     "statement": "no Connection field: close iff version is 1.0"},
+    {"id": "C17_R4h", "theorem": "Iora.C17.R4_close_token_evicts", "kind": "proved",
+     "statement": "a completed response whose Connection field has a `close` token leaves no cached connection"},
     {"id": "C17_R4c", "theorem": "Iora.C17.R4_sequences", "kind": "proved",
      "statement": "every sequence of requests: no session used after close; <=1 cached connection per host:port; cached sessions never closed; no lease left held"},
     {"id": "C17_R4d", "theorem": "Iora.C17.R4_one_lease_holder", "kind": "proved",
@@ -54,7 +60,7 @@ OBLIGATIONS = [
     {"id": "C17_R6_silence", "theorem": "Iora.C17.R6_silence_ends_attempt", "kind": "proved",
      "statement": "a silent peer ends the attempt with an error at that receive"},
 ]
-LEANCHECK = MODULES + ["IoraModel.Lemmas.HttpRetry", "IoraModel.Lemmas.HttpRetryCache", "IoraModel.Lemmas.HttpLease", "IoraModel.Model.HttpRetry", "IoraModel.Model.HttpLease"]
+LEANCHECK = MODULES + ["IoraModel.Lemmas.HttpRetry", "IoraModel.Lemmas.HttpRetryCache", "IoraModel.Lemmas.HttpLease", "IoraModel.Lemmas.HttpClose", "IoraModel.Model.HttpRetry", "IoraModel.Model.HttpLease"]
 ANCHOR_FILES = ["include/iora/network/http_client.hpp", "include/iora/network/transport_impl.hpp"]
 HERE = os.path.dirname(os.path.dirname(os.path.abspath(__file__)))
 
@@ -172,6 +178,8 @@ def request_fields(method, seq, body_len, reuse=True):
         off += len(part) + 2
     total = len(line) + 2 + body_len
     fields += [total - body_len - 2, total - body_len - 1, total - body_len, total - 1, total]
+    if body_len > 4096:      # inside a body that does not fit one segment / one socket write
+        fields += [total - body_len + x for x in (1000, 4096, 30000, 65535, 65536, 65537) if x < body_len]
     return total, sorted(set(f for f in fields if 0 <= f <= total))
 
 
@@ -337,6 +345,29 @@ def gen_offsets(rng, seq, every_byte):
                         n_fault = max(budget, 0) + 1 if rng.chance(1, 3) else 1
                         toks = [tok_resp_fault(r, jj, act)] * n_fault + [final] * (max(budget, 0) + 2 - n_fault)
                         cases.append({"cat": "offset-response", "ops": ["reset 1 0 50", req_op(method, budget, 0, body_len, toks)]})
+    return cases
+
+
+def gen_persistent(rng, seq):
+    """the same fault on EVERY attempt (the script is longer than any budget allows): counts attempts for each class, each kind of
+    method and each budget — pre-send faults included, which random scripts rarely repeat often enough"""
+    cases = []
+    for cls in "RBMLESTCFV":
+        for method in ("GET", "POST", "PUT", "PATCH", "get"):
+            for budget in (0, 1, 2, 4):
+                s = seq.next()
+                tag = ("q%d" % s).encode()
+                if cls in "RBMLES":
+                    t = tok_client(cls)
+                elif cls == "T":
+                    t = tok_req_fault("s", 25)
+                elif cls == "C":
+                    t = tok_req_fault("r", 25)
+                elif cls == "F":
+                    t = "F@" + conc(resp=MALFORMED[1])
+                else:
+                    t = rand_fault(rng, "V", tag, method, s, 0, True)
+                cases.append({"cat": "persistent", "ops": ["reset 1 0 50", req_op(method, budget, 0, 0, [t] * (budget + 3))]})
     return cases
 
 
@@ -674,11 +705,9 @@ def monitor_case(c, impl, consts):
                 bad.append("R4: a connection stays cached after an exchange that forbids reuse (class %s, %s)" % (last.cls, last.sem[:60]))
         if f.get("leased") != "0":
             bad.append("R4: lease still held after the request returned (leased=%s)" % f.get("leased"))
-        # R6 (measured part): a silent peer ends the attempt within a small multiple of the configured timeout
-        avms = [int(x) for x in f.get("avms", "-").split(",") if x not in ("-", "")]
-        for i, v in enumerate(avms):
-            if v > 10 * REQUEST_TIMEOUT_MS:
-                bad.append("R6: attempt %d lasted %d ms of client time with requestTimeout %d ms" % (i, v, REQUEST_TIMEOUT_MS))
+        # R6 (measured part): with REAL time-outs a silent peer ends the request within a small multiple of the configured timeout.
+        # (`avms`, the per-attempt client time under the virtual clock, is reported but not judged: the clock is pushed by a helper
+        # thread while the peer is silent, so on a busy machine it overshoots; `maxwait`/`tow` below are the load-independent form.)
         if realtime and int(f.get("rms", "0")) > 10 * REQUEST_TIMEOUT_MS * max(att, 1):
             bad.append("R6: %d attempt(s) took %s ms of real time with requestTimeout %d ms" % (att, f.get("rms"), REQUEST_TIMEOUT_MS))
         # R6 (deterministic part): no single wait is longer than the configured time-outs, and a wait that timed out is not repeated
@@ -754,51 +783,65 @@ def run(ctx: Ctx):
             cases += gen_pure(rng.fork("pure"), 60 if quick else 600)
             cases += gen_random(rng.fork("seq"), seq, 350 if quick else 9000)
             cases += gen_offsets(rng.fork("off"), seq, every_byte=not quick)
+            cases += gen_persistent(rng.fork("pers"), seq)
             cases += gen_racy(rng.fork("racy"), seq, 40 if quick else 600)
             cases += gen_realtime(rng.fork("rt"), seq, 4 if quick else 12)
-            cases.append({"cat": "stats", "ops": ["stats"]})
-        res = ctx.lockstep("httpretry", hb, cases, timeout=3000) if have_model else impl_only(ctx, hb, cases)
         n_mismatch = 0
         exchanges = 0
-        for c, impl, model in res:
-            dist[c["cat"]] = dist.get(c["cat"], 0) + 1
-            if c["cat"] == "stats":
-                ctx.extra["interposers"] = fields_of(impl[0]) if impl and "=" in impl[0] else impl
-                continue
-            ctx.count_case("\n".join(c["ops"]), nontrivial=True)
-            fails = monitor_case(c, impl, consts)
-            for op, l in zip(c["ops"], impl):
-                if l.startswith("ev="):
-                    n = int(fields_of(l).get("att", "0"))
-                    exchanges += n
-                    for t in op.split()[5:5 + n]:
-                        k = "att:" + t.lstrip("I")[0]
+        interposers = {}
+        stopped_early = False
+        CHUNK = 100
+        for lo in range(0, len(cases), CHUNK):
+            chunk = cases[lo:lo + CHUNK] + [{"cat": "stats", "ops": ["stats"]}]
+            res = ctx.lockstep("httpretry", hb, chunk, timeout=3000) if have_model else impl_only(ctx, hb, chunk)
+            for c, impl, model in res:
+                if c["cat"] == "stats":
+                    if impl and "=" in impl[0]:
+                        for k, v in fields_of(impl[0]).items():
+                            interposers[k] = max(interposers.get(k, 0), int(v)) if k in ("blackhole", "max_in_exchange") else interposers.get(k, 0) + int(v)
+                    continue
+                dist[c["cat"]] = dist.get(c["cat"], 0) + 1
+                ctx.count_case("\n".join(c["ops"]), nontrivial=True)
+                fails = monitor_case(c, impl, consts)
+                for op, l in zip(c["ops"], impl):
+                    if l.startswith("ev="):
+                        n = int(fields_of(l).get("att", "0"))
+                        exchanges += n
+                        for t in op.split()[5:5 + n]:
+                            k = "att:" + t.lstrip("I")[0]
+                            dist[k] = dist.get(k, 0) + 1
+                        k = "res:" + fields_of(l).get("res", "?")
                         dist[k] = dist.get(k, 0) + 1
-                    k = "res:" + fields_of(l).get("res", "?").split(":")[0] + ":" + fields_of(l).get("res", "?").split(":")[-1]
-                    dist[k] = dist.get(k, 0) + 1
-            mism = [] if c["cat"] == "racy" else [(i, a, b) for i, (a, b) in enumerate(zip(impl, model)) if compared(a) != b]
-            if len(ctx.cov["samples"]) < 6 and c["cat"] in ("sequence", "offset-request", "offset-response") and rng.chance(1, 60):
-                ctx.sample({"ops": [o[:220] for o in c["ops"][:3]], "impl": [l[:260] for l in impl[:3]]})
-            if fails:
-                report_property(ctx, hb, c, impl, model, fails, consts)
-            elif mism:
-                n_mismatch += 1
-                if n_mismatch <= 3:
-                    i, a, b = mism[0]
-                    ctx.violation("correspondence", "model and implementation disagree (no property monitor fails on this case): op `%s` impl=`%s` model=`%s`"
-                                  % (c["ops"][i][:160], compared(a)[:160], b[:160]),
-                                  {"broken": {"correspondence": "httpretry trace inclusion (harness/c17_httpretry.cpp vs Model/HttpRetry.lean)",
-                                              "detail": "first differing op index %d" % i},
-                                   "ops": c["ops"], "category": c["cat"], "observed": impl, "expected_by_model": model}, found_input=False)
+                mism = [] if c["cat"] == "racy" else [(i, a, b) for i, (a, b) in enumerate(zip(impl, model)) if compared(a) != b]
+                if len(ctx.cov["samples"]) < 6 and c["cat"] in ("sequence", "offset-request", "offset-response", "persistent") and rng.chance(1, 60):
+                    ctx.sample({"ops": [o[:220] for o in c["ops"][:3]], "impl": [l[:260] for l in impl[:3]]})
+                if fails:
+                    report_property(ctx, hb, c, impl, model, fails, consts)
+                elif mism:
+                    n_mismatch += 1
+                    if n_mismatch <= 3:
+                        i, a, b = mism[0]
+                        ctx.violation("correspondence", "model and implementation disagree (no property monitor fails on this case): op `%s` impl=`%s` model=`%s`"
+                                      % (c["ops"][i][:160], compared(a)[:160], b[:160]),
+                                      {"broken": {"correspondence": "httpretry trace inclusion (harness/c17_httpretry.cpp vs Model/HttpRetry.lean)",
+                                                  "detail": "first differing op index %d" % i},
+                                       "ops": c["ops"], "category": c["cat"], "observed": impl, "expected_by_model": model}, found_input=False)
+            n_prop = sum(v for k, v in ctx._vclass.items() if k.startswith("property:"))
+            if n_prop >= 8 or n_mismatch >= 12:
+                # failing inputs are in hand; a tree that breaks the property can make every further exchange slow (unexpected time-outs)
+                stopped_early = True
+                ctx.notes.append("stopped after %d of %d cases: %d property violations, %d correspondence mismatches" % (lo + len(chunk) - 1, len(cases), n_prop, n_mismatch))
+                break
+        ctx.extra["interposers"] = interposers
+        ctx.extra["stopped_early"] = stopped_early
         ctx.extra["exchanges"] = exchanges
-        if not ctx.replay:
+        if not ctx.replay and not stopped_early:
             dist["concurrent"] = run_par(ctx, hb, gen_par(rng.fork("par"), 60 if quick else 1500), consts, have_model)
     ctx.extra["input_distribution"] = dist
     ctx.extra["repo_tree_sha"] = ctx.repo_tree_sha(ANCHOR_FILES)
     ctx.extra["not_proved"] = [
         "R6 wall-clock part (each attempt ends within its configured timeout): measured by the harness (virtual client time per attempt, plus real-time cases), not a theorem",
         "the condition-variable hand-off inside acquireLease/releaseLease (no lost wake-up) is not modelled: blocking is 'enabled iff the host is free'; that the erase is under _mutex and the notify is notify_all is a translator check, and concurrent runs would hang into the harness watchdog",
-        "responseRequestsClose = RFC 7230 token-list semantics: the model mirrors the index loop; agreement with the RFC reading is checked differentially against an independent Python reference, not proved",
     ]
     ctx.assumptions += [
         "what frameResponse does with the received bytes is C15's model; here its outcome per receive iteration (need-more / complete(info) / malformed / cap) is an input class",
@@ -846,7 +889,7 @@ def report_property(ctx, hb, c, impl, model, fails, consts):
             return any(f.split(":")[0] == cls for f in monitor_case(cc, out, consts))
         try:
             if still(ops):
-                small = ddmin(ops[1:], lambda s: still([ops[0]] + s), max_tests=40)
+                small = ddmin(ops[1:], lambda s: still([ops[0]] + s), max_tests=12)
                 ops = [ops[0]] + small
         except Exception:
             pass
